@@ -163,6 +163,8 @@ def run_trace(case, build_pt, num):
         mm = dict(mm)
         if None in pt.measurement_names:
             mm[None] = None
+    from props import c02_r4 as R4
+    R4.pre_calls(pt, case, env, mm, singles, num)       # earlier calls (round 4), before the tracer is installed
     T = Tracer()
     try:
         T.install()
